@@ -262,7 +262,7 @@ def r09b(repo: Repo, chk: Check):
 # ---------------------------------------------------------------------- R09.c
 def r09c(repo: Repo, chk: Check):
     g = repo.mod("generate_code")
-    fn = g.func("CompilerPassGatherCode.get_code")
+    fn = g.anchor("CompilerPassGatherCode.get_code")
     chk.saw("generate_code", "CompilerPassGatherCode.get_code")
     cfg = CFG(fn)
     rd = ReachingDefs(cfg)
